@@ -12,13 +12,18 @@ package main
 //	c02.parse <text> <parent>  : wrap <text> as the location of one feature of a minimal GenBank record
 //	                             whose ORIGIN is <parent>, genbank.Parse it; reply
 //	                             GetSequence()  loc(SequenceLocation)  BuildLocationString(SequenceLocation)
+//	                             (observed twice; a second round that differs is an error "mutated|...")
 //	c02.build <loc> <parent>   : poly.Feature{SequenceLocation: loc} added with Sequence.AddFeature to a
 //	                             Sequence{Sequence: parent}; reply  GetSequence()  BuildLocationString(loc)
-//	c02.batch <parent> { <text> <loc> }*  : both of the above for every pair; reply per pair two fields,
-//	                             each "ok|v1|v2.." or "panic" (a panic in one call does not hide the others).
-//	                             The texts are first parsed as the features of ONE record (one genbank.Parse per
-//	                             batch); if that panics or yields another number of features each text gets its
-//	                             own record.
+//	c02.batch <width> <nvar> <parent> { <text> <loc>*nvar }*  : c02.parse for every text and c02.build for every
+//	                             structure; reply per group 1+nvar fields, each "ok|v1|v2.." or "panic" (a panic in one
+//	                             call does not hide the others).  The texts are first parsed as the features of ONE
+//	                             record (one genbank.Parse per batch); if that panics or yields other features each text
+//	                             gets its own record.
+//
+// In the record a location text longer than <width> (GenBank: 58) is wrapped after commas onto continuation
+// lines that start in column 22, as GenBank files do, so that the gluing of continuation lines in getFeatures
+// lies on the path text -> parseLocation -> GetSequence.
 
 import (
 	"errors"
@@ -127,14 +132,53 @@ func c02ReadLoc(s string, i int) (poly.Location, int, error) {
 	return l, i + 1, nil
 }
 
+// c02Wrap breaks a location text after commas into lines of at most width characters (a piece
+// without a comma is never broken).
+func c02Wrap(t string, width int) []string {
+	if len(t) <= width {
+		return []string{t}
+	}
+	var lines []string
+	cur := ""
+	start := 0
+	for i := 0; i <= len(t); i++ {
+		if i == len(t) || t[i] == ',' {
+			end := i
+			if i < len(t) {
+				end = i + 1
+			}
+			piece := t[start:end]
+			start = end
+			if piece == "" {
+				continue
+			}
+			if cur != "" && len(cur)+len(piece) > width {
+				lines = append(lines, cur)
+				cur = ""
+			}
+			cur += piece
+		}
+	}
+	if cur != "" {
+		lines = append(lines, cur)
+	}
+	return lines
+}
+
 // c02Record is a minimal GenBank flat file with one feature per location text.
-func c02Record(texts []string, parent string) []byte {
+func c02Record(texts []string, parent string, width int) []byte {
 	var b strings.Builder
 	b.WriteString("LOCUS       VERIF        " + strconv.Itoa(len(parent)) + " bp    DNA     linear   UNK 01-JAN-1980\n")
 	b.WriteString("DEFINITION  location check.\n")
 	b.WriteString("FEATURES             Location/Qualifiers\n")
 	for _, t := range texts {
-		b.WriteString("     misc_feature    " + t + "\n")
+		for i, line := range c02Wrap(t, width) {
+			if i == 0 {
+				b.WriteString("     misc_feature    " + line + "\n")
+			} else {
+				b.WriteString("                     " + line + "\n")
+			}
+		}
 		b.WriteString("                     /label=\"x\"\n")
 	}
 	b.WriteString("ORIGIN\n")
@@ -143,24 +187,43 @@ func c02Record(texts []string, parent string) []byte {
 	return []byte(b.String())
 }
 
-// c02Observe: the three observations on a parsed feature, each call guarded on its own.
+// c02Watch makes the observations on a feature in the order  GetSequence, structure, BuildLocationString,
+// and then all three once more: writing a location to text must not change what the feature denotes
+// (BuildLocationString receives the root by value, but its SubLocations share their backing array with
+// the feature). A second round that differs from the first is reported as "mutated|...".
+func c02Watch(f poly.Feature, withStruct bool) string {
+	seq1 := f.GetSequence()
+	loc1 := c02LocString(f.SequenceLocation)
+	built1 := genbank.BuildLocationString(f.SequenceLocation)
+	seq2 := f.GetSequence()
+	loc2 := c02LocString(f.SequenceLocation)
+	built2 := genbank.BuildLocationString(f.SequenceLocation)
+	if seq1 != seq2 || loc1 != loc2 || built1 != built2 {
+		return "mutated|" + seq1 + "|" + seq2 + "|" + loc1 + "|" + loc2 + "|" + built1 + "|" + built2
+	}
+	if withStruct {
+		return "ok|" + seq1 + "|" + loc1 + "|" + built1
+	}
+	return "ok|" + seq1 + "|" + built1
+}
+
+// c02Observe: the observations on a parsed feature, guarded on their own.
 func c02Observe(f poly.Feature) (out string) {
 	defer func() {
 		if p := recover(); p != nil {
 			out = "panic"
 		}
 	}()
-	seq := f.GetSequence()
-	return "ok|" + seq + "|" + c02LocString(f.SequenceLocation) + "|" + genbank.BuildLocationString(f.SequenceLocation)
+	return c02Watch(f, true)
 }
 
-func c02ParseOne(text, parent string) (out string) {
+func c02ParseOne(text, parent string, width int) (out string) {
 	defer func() {
 		if p := recover(); p != nil {
 			out = "panic"
 		}
 	}()
-	seq := genbank.Parse(c02Record([]string{text}, parent))
+	seq := genbank.Parse(c02Record([]string{text}, parent, width))
 	if len(seq.Features) != 1 {
 		return "nofeature"
 	}
@@ -181,17 +244,16 @@ func c02BuildOne(loc, parent string) (out string) {
 	sequence.Sequence = parent
 	feature := poly.Feature{Type: "misc_feature", SequenceLocation: l}
 	features := sequence.AddFeature(&feature)
-	got := features[len(features)-1]
-	return "ok|" + got.GetSequence() + "|" + genbank.BuildLocationString(got.SequenceLocation)
+	return c02Watch(features[len(features)-1], false)
 }
 
-func c02ParseAll(texts []string, parent string) (feats []poly.Feature, ok bool) {
+func c02ParseAll(texts []string, parent string, width int) (feats []poly.Feature, ok bool) {
 	defer func() {
 		if p := recover(); p != nil {
 			feats, ok = nil, false
 		}
 	}()
-	seq := genbank.Parse(c02Record(texts, parent))
+	seq := genbank.Parse(c02Record(texts, parent, width))
 	if len(seq.Features) != len(texts) || seq.Sequence != parent {
 		return nil, false
 	}
@@ -216,27 +278,36 @@ func c02Split(r string) ([]string, error) {
 
 func init() {
 	runner.Register("c02.parse", func(a []string) ([]string, error) {
-		return c02Split(c02ParseOne(a[0], a[1]))
+		return c02Split(c02ParseOne(a[0], a[1], 58))
 	})
 	runner.Register("c02.build", func(a []string) ([]string, error) {
 		return c02Split(c02BuildOne(a[0], a[1]))
 	})
 	runner.Register("c02.batch", func(a []string) ([]string, error) {
-		parent := a[0]
-		n := (len(a) - 1) / 2
+		width, err1 := strconv.Atoi(a[0])
+		nvar, err2 := strconv.Atoi(a[1])
+		if err1 != nil || err2 != nil || nvar < 0 {
+			return nil, errors.New("bad batch header")
+		}
+		parent := a[2]
+		rest := a[3:]
+		group := 1 + nvar
+		n := len(rest) / group
 		texts := make([]string, n)
 		for i := 0; i < n; i++ {
-			texts[i] = a[1+2*i]
+			texts[i] = rest[group*i]
 		}
-		feats, together := c02ParseAll(texts, parent)
-		out := make([]string, 0, 2*n)
+		feats, together := c02ParseAll(texts, parent, width)
+		out := make([]string, 0, group*n)
 		for i := 0; i < n; i++ {
 			if together {
 				out = append(out, c02Observe(feats[i]))
 			} else {
-				out = append(out, c02ParseOne(texts[i], parent))
+				out = append(out, c02ParseOne(texts[i], parent, width))
 			}
-			out = append(out, c02BuildOne(a[2+2*i], parent))
+			for k := 1; k <= nvar; k++ {
+				out = append(out, c02BuildOne(rest[group*i+k], parent))
+			}
 		}
 		return out, nil
 	})
